@@ -29,6 +29,7 @@ def run_symx_check(mod, tier, seed, only=None, procs=None, extra_cov=None, pre_v
     nrep = 0
     replayed, reproduced, probes, probe_hits = 0, 0, 0, 0
     sample_violations = []
+    unrealizable = []
     known_replays = {}
     for r in results:
         task = tindex[r["task"]]
@@ -59,6 +60,8 @@ def run_symx_check(mod, tier, seed, only=None, procs=None, extra_cov=None, pre_v
                 else:
                     V.violations.append((path, "[%s] %s" % (r["task"], verdict.get("detail", ""))))
                     sample_violations.append({"task": r["task"], "detail": verdict.get("detail", "")[:300]})
+            elif ok is False and verdict.get("unrealizable"):
+                unrealizable.append({"task": r["task"], "detail": str(verdict.get("detail"))[:200]})
             elif ok is False:
                 V.harness.append("task %s: solver counterexample did not reproduce natively (engine/oracle mismatch): %s"
                                  % (r["task"], str(verdict.get("detail"))[:300]))
@@ -167,6 +170,7 @@ def run_symx_check(mod, tier, seed, only=None, procs=None, extra_cov=None, pre_v
         "counterexamples_replayed": replayed, "counterexamples_reproduced": reproduced,
         "inconclusive_paths_probed_concretely": probes, "probe_violations": probe_hits,
         "violation_samples": sample_violations[:5],
+        "witnesses_not_realizable_under_real_environment": unrealizable[:10],
         "known_findings_hit": {k: v[0] for k, v in V.known.items()},
         "exhaustive": False,
         "all_tasks_fully_explored": complete,
